@@ -49,9 +49,20 @@ class Accumulate(RuleAnalysis):
         self.accs = accs or set()
         self.acc_sites = []
         self.viol = []
+        self.stale_tests = []
 
     def initial(self, fn):
-        return [(False, False, False, False)]
+        return [(False, False, False, False, frozenset())]
+
+    def _current(self, e, fresh) -> bool:
+        """does e look at the accumulator as it is *now*: the accumulator itself (len(acc), acc.nbytes, a view of it) or a local computed from
+        it since the last accumulation"""
+        for x in ast.walk(e):
+            if isinstance(x, ast.Name) and (x.id in self.accs or x.id in fresh):
+                return True
+            if isinstance(x, ast.Attribute) and dotted(x) in self.accs:
+                return True
+        return False
 
     def may_raise(self, node, fact):
         c = call_of(node)
@@ -94,7 +105,7 @@ class Accumulate(RuleAnalysis):
         return False
 
     def transfer(self, node, fact):
-        pending, searched, size_ok, limit_ok = fact
+        pending, searched, size_ok, limit_ok, fresh = fact
         acc = self._is_acc(node)
         if acc is not None:
             if node not in self.acc_sites:
@@ -104,16 +115,34 @@ class Accumulate(RuleAnalysis):
                     self.viol.append((node, "after a search / parse round that did not find the frame end, more data is accumulated without the accumulated size having been compared with the limit"))
                 elif not searched and not (size_ok or limit_ok):
                     self.viol.append((node, "received data is accumulated twice in a row without any test of the accumulated size in between"))
-            return [(True, False, False, False)]
+            return [(True, False, False, False, frozenset())]
+        # locals computed from the accumulator since the last accumulation are 'fresh'; anything else derived from it is a stale snapshot
+        from sa.flow import WithEnter
+        tgt = val = None
+        if isinstance(node, ast.Assign) and len(node.targets) == 1 and isinstance(node.targets[0], ast.Name):
+            tgt, val = node.targets[0].id, node.value
+        elif isinstance(node, (ast.AnnAssign, ast.NamedExpr)) and isinstance(node.target, ast.Name) and node.value is not None:
+            tgt, val = node.target.id, node.value
+        elif isinstance(node, WithEnter) and isinstance(node.item.optional_vars, ast.Name):
+            tgt, val = node.item.optional_vars.id, node.item.context_expr
+        if tgt is not None and tgt not in self.accs:
+            fresh = (fresh | {tgt}) if self._current(val, fresh) else (fresh - {tgt})
+            fact = (pending, searched, size_ok, limit_ok, fresh)
         if isinstance(node, TestAtom) and isinstance(node.test, (ast.Compare, ast.BoolOp, ast.UnaryOp)):
+            current = self._current(node.test, fresh) or not pending
             if self._mentions(node.test, self.limit_names):
-                return [(pending, searched, True, True)]
-            if self._mentions(node.test, self.size_names) or any(ast.unparse(x).startswith("len(") for x in ast.walk(node.test) if isinstance(x, ast.Call)):
-                return [(pending, searched, True, limit_ok)]
+                if current:
+                    return [(pending, searched, True, True, fresh)]
+                stale = sorted({x.id for x in ast.walk(node.test) if isinstance(x, ast.Name)} & (self.size_names - self.accs))
+                if stale and (node.test, "stale") not in [(a, b) for a, b in self.stale_tests]:
+                    self.stale_tests.append((node.test, "stale"))
+                return [fact]
+            if (self._mentions(node.test, self.size_names) and current) or any(ast.unparse(x).startswith("len(") for x in ast.walk(node.test) if isinstance(x, ast.Call)):
+                return [(pending, searched, True, limit_ok, fresh)]
         if isinstance(node, ast.Call) and "limit" in _cname(node).lower() and "check" in _cname(node).lower():
-            return [(pending, searched, True, True)]  # a helper that checks the limit (verified separately)
+            return [(pending, searched, True, True, fresh)]  # a helper that checks the limit (verified separately)
         if self._is_search(node):
-            return [(pending, True, size_ok, limit_ok)]
+            return [(pending, True, size_ok, limit_ok, fresh)]
         return [fact]
 
 
@@ -402,4 +431,22 @@ MUTANTS += [
 ]
 BENIGN += [
     Variant("auto-allocator-via-local", _AUTOA, lambda fn: replace_stmt(fn, stmt_has("return bytearray(self.__limit)"), "size = self.__limit\nreturn bytearray(size)"), why="size through a local"),
+]
+
+
+def _hoist_len(fn):
+    w = [n for n in ast.walk(fn) if isinstance(n, ast.While)][-1]
+    for blk in [n.body for n in ast.walk(fn) if isinstance(getattr(n, "body", None), list)]:
+        if w in blk:
+            blk.insert(blk.index(w), ast.parse("document_length: int = len(partial_document)").body[0])
+    for c in [x for x in ast.walk(w) if isinstance(x, ast.Call) and ast.unparse(x) == "len(partial_document)"]:
+        pass
+    src = ast.unparse(w).replace("len(partial_document)", "document_length")
+    new = ast.parse(src).body[0]
+    w.test, w.body, w.orelse = new.test, new.body, new.orelse
+
+
+MUTANTS += [
+    Variant("raw-parse-plain-value-limit-test-on-a-hoisted-length", _RAW, _hoist_len, "C07.guard",
+            why="the length compared with the limit was computed before the loop: later chunks are never counted (seed C06-8)"),
 ]
